@@ -448,11 +448,39 @@ def unknown_payload(rng, tables, n=None):
     return bytes(body)
 
 
+def with_crc(prefix, target):
+    """prefix ++ three bytes chosen so that the CRC-24Q of the whole is `target`"""
+    reg = target ^ crc24q_ref(prefix + bytes(3))
+    for _ in range(24):
+        reg = ((reg ^ 0x1864CFB) >> 1) if reg & 1 else reg >> 1
+    d = prefix + reg.to_bytes(3, "big")
+    assert crc24q_ref(d) == target
+    return d
+
+
 def damage(rng, fr, kind=None):
     """flip bits behind the 3-byte header in a guaranteed-detectable pattern"""
     n = (len(fr) - 3) * 8
-    kind = kind or rng.choice(["1", "2", "3", "burst", "odd"])
+    kind = kind or rng.choice(["1", "2", "3", "burst", "odd", "burst", "residual"])
     x = bytearray(fr)
+    if kind == "residual":
+        # a burst of at most 24 bits chosen so that the CRC residual of the damaged frame is a special value
+        # (all ones, a single bit, ...): XOR of the value into the checksum bytes, or - by linearity - the
+        # pattern that produces it from a 24-bit window further left
+        target = rng.choice([0xFFFFFF, 0xFFFFFF, 0x000001, 0x800000, 0xFFFFFE, 0x7FFFFF, 0x864CFB])
+        k = rng.choice([0, 0, 1, 2, 5]) if len(fr) >= 6 + 8 else 0        # window ends k bytes before the end
+        k = min(k, len(fr) - 6)
+        # the residual a 24-bit pattern p leaves when it sits k bytes before the end is crc24q(p ++ k zero bytes)
+        # = p * x^(24 + 8k) mod g: linear and invertible, so run the register backwards from the target
+        reg = target
+        for _ in range(24 + 8 * k):
+            reg = ((reg ^ 0x1864CFB) >> 1) if reg & 1 else reg >> 1
+        pat = reg
+        assert crc24q_ref(pat.to_bytes(3, "big") + bytes(k)) == target and pat != 0
+        pos = len(fr) - 3 - k
+        for j, b in enumerate(pat.to_bytes(3, "big")):
+            x[pos + j] ^= b
+        return bytes(x), "residual%06x@-%d" % (target, k)
 
     def flip(i):
         x[3 + i // 8] ^= 0x80 >> (i % 8)
